@@ -1220,7 +1220,7 @@ RULE = ("one run = seeded grammar-based program (AST, <= forth_max_words words) 
         "sequence of the program, schedule shape with step-burst classes, machine width, configuration class); "
         "non-trivial = at least 5 program words or at least one fault kind fired")
 REQUIRED_PROBES = {"quick": ["program_paused", "schedules_compared", "calls_compared", "compile_error_reported",
-                             "exhaustive_segmentation_sweeps"],
+                             "exhaustive_segmentation_sweeps", "calls_at_pauses_compared", "not_a_word_refused"],
                    "thorough": ["program_paused", "schedules_compared", "calls_compared", "compile_error_reported",
                                 "exhaustive_segmentation_sweeps",
                                 "mutated_source_compiled"]}
